@@ -253,9 +253,11 @@ def run(tier, seed):
 
   # ---- conditional spaces: membership refused, builder visits exactly the active parameters
   bcases, bobjs = [], []
+  vcases, vobjs = [], []
   for i in range(N // 4):
     space = vz.SearchSpace()
     counter = [0]
+    has_children = [False]     # the oracle for "conditional": a child was declared, under a parent of any kind
 
     def grow(sel, depth):
       for _ in range(r.randrange(1, 3)):
@@ -276,9 +278,26 @@ def run(tier, seed):
           continue
         if depth < 3 and r.random() < 0.6:
           for _ in range(r.randrange(1, 3)):
+            has_children[0] = True
             grow(sel.select(nm, r.sample(vals, r.randrange(1, len(vals)))), depth + 1)
-    grow(space.root, 1)
-    if space.is_conditional:
+    if i % 5 == 3:
+      # every parent is an INTEGER parameter (no categorical / discrete parent anywhere)
+      counter[0] += 1
+      space.root.add_int_param('p1', 1, 3)
+      has_children[0] = True
+      space.root.select('p1', [2]).add_float_param('p2', 0.0, 1.0)
+      counter[0] += 1
+      if r.random() < 0.5:
+        space.root.select('p1', [2, 3]).add_int_param('p3', 1, 3)
+        space.root.select('p1', [2, 3]).select('p3', [1]).add_categorical_param('p4', ['u', 'v'])
+        counter[0] += 2
+      rep.count('conditional_space_integer_parents_only')
+    else:
+      grow(space.root, 1)
+    if space.is_conditional != has_children[0]:
+      viol('SearchSpace.is_conditional is %r for a space %s child parameters' % (space.is_conditional, 'with' if has_children[0] else 'without'),
+           {'space': repr(space)[:400]})
+    if has_children[0]:
       try:
         space.contains(vz.ParameterDict({'p1': 1}))
         viol('membership in a conditional space was answered instead of refused', {'space': repr(space)[:300]})
@@ -310,7 +329,7 @@ def run(tier, seed):
           kids = [c for c in pc.child_parameter_configs if v in c.matching_parent_values or (isinstance(v, float) and any(v == m for m in c.matching_parent_values))]
           walk(kids)
       walk(space.parameters)
-      rep.case({'conditional_space_parameters': counter[0], 'order': order, 'visited': visited}, space.is_conditional)
+      rep.case({'conditional_space_parameters': counter[0], 'order': order, 'visited': visited}, has_children[0])
       rep.count('builder_' + order)
       if sorted(visited) != sorted(active) or len(set(visited)) != len(visited):
         viol('SequentialParameterBuilder (%s) visited %s but the active parameters are %s' % (order, visited, active), {'space': repr(space)[:500], 'choice': repr(choice)})
@@ -327,6 +346,39 @@ def run(tier, seed):
                     lambda kv: gpair(gstr(kv[0]), gN(kv[1])))
       bcases.append('(%s, %s, %s, %s)' % (gbool(order == 'bfs'), glist(space.parameters, g_tree), table, glist(visited, gstr)))
       bobjs.append((order, visited))
+      # the validating walk: sometimes one parameter is given a value outside its domain; outcome vs build_v
+      bad_name = r.choice(list(choice)) if r.random() < 0.5 else None
+      b = parameter_iterators.SequentialParameterBuilder(space, traverse_order=order)
+      recorded, outcome, given = [], 'ok', {}
+      try:
+        for pc in b:
+          v = choice[pc.name]
+          if pc.name == bad_name:
+            v = {'DOUBLE': r.choice([pc.bounds[1] + 1.0, pc.bounds[0] - 0.25, float('nan')]) if pc.type.name == 'DOUBLE' else None,
+                 'INTEGER': 7, 'DISCRETE': 9.25, 'CATEGORICAL': 'zzz_not'}[pc.type.name]
+          given[pc.name] = v
+          b.choose_value(v)
+          recorded.append(pc.name)
+      except ValueError:
+        outcome = 'err'
+      except Exception as e:  # pylint: disable=broad-except
+        outcome = 'raised ' + type(e).__name__
+
+      def atom_v(pc, v):
+        if pc.type.name == 'DOUBLE':
+          return 1 if pc.bounds[0] <= v <= pc.bounds[1] else 0
+        return atom(pc, v)
+      vt = glist([(nm, atom_v(pcmap(space, nm), v)) for nm, v in given.items()], lambda kv: gpair(gstr(kv[0]), gN(kv[1])))
+      rep.case({'builder_validation': order, 'bad': bad_name is not None and bad_name in given, 'outcome': outcome}, True)
+      rep.count('builder_validation_' + ('refused' if outcome == 'err' else 'answered'))
+      if outcome == 'ok' and set(b.parameters.keys()) != set(recorded):
+        viol('SequentialParameterBuilder.parameters differs from the values it was given', {'order': order})
+      if outcome == 'ok' and bad_name in given:
+        viol('SequentialParameterBuilder recorded a value outside the domain of %s' % bad_name,
+             {'order': order, 'given': repr(given)[:300], 'parameter': repr(pcmap(space, bad_name))[:200]})
+      vcases.append('(%s, %s, %s, %s, %s)' % (gbool(order == 'bfs'), glist(space.parameters, g_tree), vt, gbool(outcome == 'ok'),
+                                              glist(recorded if outcome == 'ok' else [], gstr)))
+      vobjs.append((order, given, outcome))
   ckb = ('Definition choose_of (tbl : list (str * N)) (t : ctree) : N := match t with CNode n _ => '
          'match find (fun kv => str_eqb (fst kv) n) tbl with Some kv => snd kv | None => 0%N end end.\n'
          'Definition ck (c : bool * list ctree * list (str * N) * list str) := let \'(bfs, roots, tbl, vis) := c in '
@@ -335,6 +387,16 @@ def run(tier, seed):
   rep.disagreements += len(bad)
   for i in bad[:3]:
     broke = ((broke or '') + ' correspondence SequentialParameterBuilder vs model on %r;' % (bobjs[i],))
+  ckv = ('Definition choose_of (tbl : list (str * N)) (t : ctree) : N := match t with CNode n _ => '
+         'match find (fun kv => str_eqb (fst kv) n) tbl with Some kv => snd kv | None => 0%N end end.\n'
+         'Definition ck (c : bool * list ctree * list (str * N) * bool * list str) := let \'(bfs, roots, tbl, ok, vis) := c in '
+         'match build_v 200 bfs (choose_of tbl) roots with '
+         '| Ok l => ok && list_eqb str_eqb (map (fun tv => match fst tv with CNode n _ => n end) l) vis '
+         '| Err _ => negb ok end.\n')
+  bad = C.run_cases('C16', 'bldv', HDR + ckv, vcases, 'ck')
+  rep.disagreements += len(bad)
+  for i in bad[:3]:
+    broke = ((broke or '') + ' correspondence SequentialParameterBuilder validation vs build_v on %r;' % (vobjs[i],))
 
   # ---- builders with invalid arguments / client add_trial
   for i in range(N // 8):
@@ -363,6 +425,25 @@ def run(tier, seed):
     except (ValueError, TypeError, KeyError):
       pass
     rep.case({'invalid_builder_call': bad_calls.index(f)}, True)
+  # ---- SequentialParameterBuilder validates the chosen value of EVERY parameter kind (its docstring: "get_subspace also
+  # validates the value"): a value outside the domain is refused, never recorded
+  for kind_, mk_, bad_ in [('double', lambda root: root.add_float_param('x', 0.0, 1.0), 5.0),
+                           ('double', lambda root: root.add_float_param('x', 0.0, 1.0), float('nan')),
+                           ('int', lambda root: root.add_int_param('x', 1, 3), 7),
+                           ('discrete', lambda root: root.add_discrete_param('x', [1.0, 2.0]), 9.0),
+                           ('categorical', lambda root: root.add_categorical_param('x', ['a', 'b']), 'zzz')]:
+    sp_ = vz.SearchSpace()
+    mk_(sp_.root)
+    for order_ in ('dfs', 'bfs'):
+      bld = vz.SequentialParameterBuilder(sp_, traverse_order=order_)
+      rep.case({'builder_value_outside_domain': kind_, 'order': order_}, True)
+      try:
+        for pc_ in bld:
+          bld.choose_value(bad_)
+        viol('SequentialParameterBuilder recorded a value outside the parameter\'s domain', {'kind': kind_, 'value': repr(bad_), 'order': order_,
+                                                                                              'parameters': repr(dict(bld.parameters))[:200]})
+      except (ValueError, TypeError):
+        pass
   broke2, conc2 = add_trial_check(rep, r, N)
   broke = ((broke or '') + ' ' + (broke2 or '')).strip() or None
   concrete = concrete or conc2
